@@ -133,6 +133,19 @@ def step (s : S) (toks : List String) : S × String :=
     match now.toNat?, cid.toNat?, parseHex h with
     | some now, some cid, some b => fin (Sys.step s (.uplink now cid b))
     | _, _, _ => bad
+  | ["burst", now, cid, n, h] =>
+    -- a backlog of `n` copies in the uplink channel, drained to empty: `n` uplink events in a row
+    match now.toNat?, cid.toNat?, n.toNat?, parseHex h with
+    | some now, some cid, some n, some b =>
+      if n = 0 || n > 1000 then bad else
+      let r := (List.range n).foldl
+        (fun (acc : S × Out) _ =>
+          let r := Sys.step acc.1 (.uplink now cid b)
+          (r.1, { wire := acc.2.wire ++ r.2.wire, client := acc.2.client ++ r.2.client,
+                  hkErr := acc.2.hkErr || r.2.hkErr }))
+        (s, { wire := [] })
+      fin r
+    | _, _, _, _ => bad
   | ["flush", now] =>
     match now.toNat? with
     | some now => fin (Sys.step s (.flush now))
